@@ -3,8 +3,8 @@
     [GenEquivDerive] / [GenEquivDerive2] with the model theorem of the property; the subject of every
     statement is the source-derived term. *)
 From SSZ Require Import Base RustSem Offsets Encoder Builder Types Codec CodecUnfold BaseFacts OffsetsFacts
-     ListDecFacts Canon OrderFacts RoundTrip LeafIface LeafProof MetaFacts SizeFacts
-     Generated GenEquiv GenEquivDec GenEquivEnc GenProps GeneratedDerive GenEquivDerive GenEquivDerive2.
+     ListDecFacts Canon OrderFacts RoundTrip LeafIface LeafProof MetaFacts SizeFacts Strict
+     Generated GenEquiv GenEquivDec GenEquivEnc GenProps GeneratedDerive GenEquivDerive GenEquivDerive2 GenEquivDerive3.
 From Coq Require Import ZArith ZifyN ZifyBool ZifyNat Lia.
 Open Scope N_scope.
 
@@ -315,6 +315,121 @@ Proof.
   - destruct (GenD.U2_from_ssz_bytes (s :: body)); cbn [omap] in E; try discriminate. contradiction.
 Qed.
 
+(** ** C17 on the expanded [four_byte_option_impl!] modules and on a container that uses them *)
+Lemma v_opt_u64_inj o o' : v_opt_u64 o' = v_opt_u64 o -> o' = o.
+Proof. destruct o, o'; cbn; intro H; try discriminate; [injection H as ->|]; reflexivity. Qed.
+Lemma v_opt_vec_inj o o' : v_opt_vec o' = v_opt_vec o -> o' = o.
+Proof.
+  destruct o as [l|], o' as [l'|]; cbn; intro H; try discriminate; [|reflexivity].
+  injection H as H. apply map_VUint_inj in H. subst. reflexivity.
+Qed.
+
+Theorem Src_C17_u64_encoding x :
+  GenD.legacy_u64__encode__as_ssz_bytes None = Ok [0; 0; 0; 0] /\
+  GenD.legacy_u64__encode__as_ssz_bytes (Some x) = Ok ([1; 0; 0; 0] ++ le_bytes 8 x) /\
+  GenD.legacy_u64__encode__ssz_bytes_len None = Ok 4 /\ GenD.legacy_u64__encode__ssz_bytes_len (Some x) = Ok 12.
+Proof. repeat split. Qed.
+
+Theorem Src_C17_u64_round_trip o :
+  has_ty T_Lu64 (v_opt_u64 o) = true ->
+  (do bs <- GenD.legacy_u64__encode__ssz_append o []; GenD.legacy_u64__decode__from_ssz_bytes bs) = Ok o.
+Proof.
+  intro Hty. apply (src_round_trip T_Lu64 v_opt_u64); try assumption; try reflexivity;
+    try (intros o'; apply v_opt_u64_inj); try apply derive_legacy_u64_ssz_append; try apply derive_legacy_u64_from_ssz_bytes.
+  all: try (rewrite <- (proj1 (size_facts leaf_facts _ _ Hty)); destruct o; vm_compute; reflexivity).
+Qed.
+
+Theorem Src_C17_u64_strict bs :
+  (len bs < 4 -> GenD.legacy_u64__decode__from_ssz_bytes bs = Err) /\
+  (forall o, phys bs -> GenD.legacy_u64__decode__from_ssz_bytes bs = Ok o -> GenD.legacy_u64__encode__as_ssz_bytes o = Ok bs).
+Proof.
+  split.
+  - intro H. pose proof (derive_legacy_u64_from_ssz_bytes bs) as E. unfold T_Lu64 in E. rewrite (legacy_short (TUint 8) bs H) in E.
+    destruct (GenD.legacy_u64__decode__from_ssz_bytes bs); cbn [omap] in E; try discriminate. reflexivity.
+  - intros o Hp Hr. rewrite derive_legacy_u64_as_ssz_bytes. f_equal.
+    assert (Hd : dec T_Lu64 bs = Ok (v_opt_u64 o)) by (rewrite <- derive_legacy_u64_from_ssz_bytes, Hr; reflexivity).
+    exact (proj1 (canon_facts leaf_facts T_Lu64 eq_refl bs _ Hp Hd)).
+Qed.
+
+Theorem Src_C17_vec_round_trip o :
+  has_ty T_Lvec (v_opt_vec o) = true -> len (enc T_Lvec (v_opt_vec o)) < two32 ->
+  (do bs <- GenD.legacy_vec__encode__ssz_append o []; GenD.legacy_vec__decode__from_ssz_bytes bs) = Ok o.
+Proof.
+  intros Hty Hlen. apply (src_round_trip T_Lvec v_opt_vec); try assumption; try reflexivity.
+  - intros o'. apply v_opt_vec_inj.
+  - apply derive_legacy_vec_ssz_append. destruct o as [l|]; [|exact I].
+    rewrite <- (proj1 (size_facts leaf_facts _ _ Hty)) in Hlen.
+    change (bytes_len T_Lvec (v_opt_vec (Some l))) with (bytes_len (TList (TUint 1)) (v_list l) + BYTES_PER_LENGTH_OFFSET) in Hlen.
+    rewrite bytes_len_list_u8 in Hlen. unfold two32 in Hlen. pose proof usize_max_val. lia.
+  - apply derive_legacy_vec_from_ssz_bytes.
+Qed.
+
+Theorem Src_C17_vec_strict bs o :
+  phys bs -> GenD.legacy_vec__decode__from_ssz_bytes bs = Ok o -> GenD.legacy_vec__encode__ssz_append o [] = Ok bs.
+Proof.
+  intros Hp Hr. apply (src_canonical T_Lvec v_opt_vec _ GenD.legacy_vec__decode__from_ssz_bytes bs o eq_refl Hp derive_legacy_vec_from_ssz_bytes Hr).
+  intros Hty Hlen. apply derive_legacy_vec_ssz_append. destruct o as [l|]; [|exact I].
+  rewrite <- (proj1 (size_facts leaf_facts _ _ Hty)) in Hlen.
+  change (bytes_len T_Lvec (v_opt_vec (Some l))) with (bytes_len (TList (TUint 1)) (v_list l) + BYTES_PER_LENGTH_OFFSET) in Hlen.
+  rewrite bytes_len_list_u8 in Hlen. lia.
+Qed.
+
+(** as a field codec inside a derived container *)
+Lemma v_WithLegacy_inj r r' : v_WithLegacy r' = v_WithLegacy r -> r' = r.
+Proof.
+  destruct r as [a b c], r' as [a' b' c']. unfold v_WithLegacy. cbn [GenD.WithLegacy_a GenD.WithLegacy_b GenD.WithLegacy_c]. intro H.
+  assert (Ha : VUint a' = VUint a) by exact (f_equal (fun v => match v with VCont (x :: _) => x | _ => VNone end) H).
+  assert (Hb : v_opt_u64 b' = v_opt_u64 b) by exact (f_equal (fun v => match v with VCont (_ :: x :: _) => x | _ => VNone end) H).
+  assert (Hc : v_opt_vec c' = v_opt_vec c) by exact (f_equal (fun v => match v with VCont (_ :: _ :: x :: _) => x | _ => VNone end) H).
+  injection Ha as ->. apply v_opt_u64_inj in Hb. apply v_opt_vec_inj in Hc. subst. reflexivity.
+Qed.
+
+Lemma size_WithLegacy r : has_ty T_WithLegacy (v_WithLegacy r) = true ->
+  len (enc T_WithLegacy (v_WithLegacy r)) =
+  10 + (match GenD.WithLegacy_b r with Some _ => 12 | None => 4 end) + (match GenD.WithLegacy_c r with Some l => llen l + 4 | None => 4 end).
+Proof.
+  intro Hty. rewrite <- (proj1 (size_facts leaf_facts _ _ Hty)). destruct r as [a b c]. unfold T_WithLegacy, v_WithLegacy.
+  cbn [GenD.WithLegacy_a GenD.WithLegacy_b GenD.WithLegacy_c].
+  rewrite bytes_len_container. change (forallb e_is_fixed [TUint 2; T_Lu64; T_Lvec]) with false. cbv iota.
+  cbn [combine map sumN fst snd]. unfold field_len.
+  change (e_is_fixed (TUint 2)) with true. change (e_is_fixed T_Lu64) with false. change (e_is_fixed T_Lvec) with false.
+  change (e_fixed_len (TUint 2)) with 2. cbv iota. unfold BYTES_PER_LENGTH_OFFSET.
+  assert (HB : bytes_len T_Lu64 (v_opt_u64 b) = match b with Some _ => 12 | None => 4 end) by (destruct b; reflexivity).
+  assert (HC : bytes_len T_Lvec (v_opt_vec c) = match c with Some l => llen l + 4 | None => 4 end).
+  { destruct c as [l|]; [|reflexivity].
+    change (bytes_len T_Lvec (v_opt_vec (Some l))) with (bytes_len (TList (TUint 1)) (v_list l) + BYTES_PER_LENGTH_OFFSET).
+    rewrite bytes_len_list_u8. reflexivity. }
+  rewrite HB, HC. lia.
+Qed.
+
+Theorem Src_C17_round_trip_as_field r :
+  has_ty T_WithLegacy (v_WithLegacy r) = true -> len (enc T_WithLegacy (v_WithLegacy r)) < two32 ->
+  (do bs <- GenD.WithLegacy_ssz_append r []; GenD.WithLegacy_from_ssz_bytes bs) = Ok r.
+Proof.
+  intros Hty Hlen. apply (src_round_trip T_WithLegacy v_WithLegacy); try assumption; try reflexivity.
+  - intros r'. apply v_WithLegacy_inj.
+  - apply derive_WithLegacy_ssz_append. rewrite (size_WithLegacy r Hty) in Hlen. unfold two32 in Hlen. pose proof usize_max_val.
+    destruct (GenD.WithLegacy_c r); [|exact I]. destruct (GenD.WithLegacy_b r); lia.
+  - apply derive_WithLegacy_from_ssz_bytes.
+Qed.
+
+Theorem Src_C17_canonical_as_field bs r :
+  phys bs -> GenD.WithLegacy_from_ssz_bytes bs = Ok r -> GenD.WithLegacy_ssz_append r [] = Ok bs.
+Proof.
+  intros Hp Hr. apply (src_canonical T_WithLegacy v_WithLegacy _ GenD.WithLegacy_from_ssz_bytes bs r eq_refl Hp derive_WithLegacy_from_ssz_bytes Hr).
+  intros Hty Hlen. apply derive_WithLegacy_ssz_append. rewrite (size_WithLegacy r Hty) in Hlen.
+  destruct (GenD.WithLegacy_c r); [|exact I]. destruct (GenD.WithLegacy_b r); lia.
+Qed.
+
+Example ex_WithLegacy :
+  let r := {| GenD.WithLegacy_a := 258; GenD.WithLegacy_b := Some 5; GenD.WithLegacy_c := Some [9; 8] |} in
+  has_ty T_WithLegacy (v_WithLegacy r) = true /\
+  GenD.WithLegacy_ssz_append r [] = Ok [2; 1; 10; 0; 0; 0; 22; 0; 0; 0; 1; 0; 0; 0; 5; 0; 0; 0; 0; 0; 0; 0; 1; 0; 0; 0; 9; 8] /\
+  (do bs <- GenD.WithLegacy_ssz_append r []; GenD.WithLegacy_from_ssz_bytes bs) = Ok r /\
+  GenD.legacy_u64__decode__from_ssz_bytes [2; 0; 0; 0] = Err /\ GenD.legacy_u64__decode__from_ssz_bytes [0; 0; 0] = Err /\
+  GenD.legacy_u64__decode__from_ssz_bytes [0; 0; 0; 0; 0] = Err.
+Proof. vm_compute. repeat split. Qed.
+
 (** ** the hypotheses are satisfiable: concrete values, evaluated by the kernel through the expanded code *)
 Example ex_Mixed :
   let r := {| GenD.Mixed_a := 513; GenD.Mixed_b := [1; 2; 3]; GenD.Mixed_c := 70000; GenD.Mixed_d := [258; 65535] |} in
@@ -358,3 +473,10 @@ Print Assumptions Src_C07_Mixed.
 Print Assumptions Src_C07_Outer.
 Print Assumptions Src_C07_Skip.
 Print Assumptions Src_C15_U2_selectors.
+Print Assumptions Src_C17_u64_encoding.
+Print Assumptions Src_C17_u64_round_trip.
+Print Assumptions Src_C17_u64_strict.
+Print Assumptions Src_C17_vec_round_trip.
+Print Assumptions Src_C17_vec_strict.
+Print Assumptions Src_C17_round_trip_as_field.
+Print Assumptions Src_C17_canonical_as_field.
